@@ -7,23 +7,29 @@ CMDKEY = ('sstr', 'CMD')
 
 
 def live_alts(st, v, assume=None):
-    """concrete alternatives of a (possibly nested) Choice that are compatible with the path decisions
-    (and with the extra assumptions {key: allowed values})"""
+    """concrete alternatives of a (possibly nested) Choice that are compatible with the path decisions, with the
+    extra assumptions {key: allowed values} and with the guards of the enclosing alternatives"""
     if not isinstance(v, Choice):
         return [v]
     out = []
     for cons, x in v.alts:
         ok = True
+        acc = dict(assume) if assume else {}
         for k, allowed in cons.items():
             cur = st.dom.get(k)
             if cur is not None and not (cur & allowed):
                 ok = False
                 break
-            if assume is not None and k in assume and not (assume[k] & allowed):
-                ok = False
-                break
+            if k in acc:
+                both = acc[k] & allowed
+                if not both:
+                    ok = False
+                    break
+                acc[k] = both
+            else:
+                acc[k] = allowed
         if ok:
-            out.extend(live_alts(st, x, assume))
+            out.extend(live_alts(st, x, acc))
     return out
 
 
